@@ -124,9 +124,10 @@ Inductive op :=
 | ONames                               (* decoration.RegisteredDecorationNames() *)
 | OStyles                              (* auto.ListStyles() *)
 | OSet (n : bytes)                     (* tt := texttable.Wrap(t); tt.SetDecorationNamed(n); tt.Render() *)
-| OAutoNew (n : bytes)                 (* tt := auto.New(n) for a dot-free n that names no sub-package: the same
-                                          selection through auto (Props/C19.v, c19_plain_is_set), the error is
-                                          dropped by auto; tt.Render() *)
+| OAutoNew (n : bytes)                 (* tt := auto.New(n) for a dot-free n that names no sub-package, or
+                                          auto.New("texttable." ++ n) for any dot-free n: the same selection through
+                                          auto (Props/C19.v, c19_plain_is_set, c19_texttable_qualified), the error
+                                          is dropped by auto; tt.Render() *)
 | ORender (k : nat)                    (* the k-th table this goroutine made: Render() again *)
 | OReSet (k : nat) (n : bytes)         (* the k-th table: SetDecorationNamed(n); Render() *)
 | OSetDec (k : nat) (d : decoration).  (* the k-th table: SetDecoration(d); Render() *)
